@@ -4,8 +4,22 @@ import os
 import sys
 
 
+def _watch_parent(ppid):
+    import threading
+    import time
+
+    def loop():
+        while True:
+            time.sleep(2.0)
+            if os.getppid() != ppid:
+                os._exit(3)
+
+    threading.Thread(target=loop, daemon=True).start()
+
+
 def _init():
     sys.path.insert(0, os.path.dirname(os.path.dirname(os.path.abspath(__file__))))
+    _watch_parent(os.getppid())
     import env
 
     env.setup()
